@@ -8,7 +8,7 @@ import time
 import common
 from common import Result, log
 
-STALL_S = 12          # a single map may take this long at most (budget of the property: "a small time")
+STALL_S = 12          # a single CALL may take this long at most (budget of the property: "a small time"); the harness writes a heartbeat after calls
 MEM_BYTES = 6 * 1024 ** 3
 
 
@@ -20,10 +20,10 @@ def run_slices(binp, scen, n, c09, nproc, label, random_family=False):
     """Run corner-replay over [0, n) in nproc parallel slices with a stall watchdog per slice.
     Returns (calls, problems, hangs)."""
     pid = os.getpid()
-    bounds = [(k * n // nproc, (k + 1) * n // nproc) for k in range(nproc)]
+    # interleaved slices (index % nproc == k): expensive maps are neighbours in the enumeration order
     state = []
-    for k, (a, b) in enumerate(bounds):
-        state.append({"k": k, "from": a, "to": b, "proc": None, "prog": None, "out": None, "last": time.time(), "cur": a})
+    for k in range(nproc):
+        state.append({"k": k, "from": 0, "to": n if k < n else 0, "proc": None, "prog": None, "out": None, "last": time.time(), "cur": 0, "size": 0})
     calls, problems, hangs, skipped = 0, [], [], 0
 
     def start(s):
@@ -33,12 +33,13 @@ def run_slices(binp, scen, n, c09, nproc, label, random_family=False):
             if os.path.exists(f):
                 os.remove(f)
         if random_family:
-            args = [binp, "random-replay", str(n), s["out"], s["prog"], "--from", str(s["from"]), "--to", str(s["to"])]
+            args = [binp, "random-replay", str(n), s["out"], s["prog"], "--from", str(s["from"]), "--to", str(s["to"]), "--mod", str(nproc), "--rem", str(s["k"])]
         else:
-            args = [binp, "corner-replay", scen, s["out"], s["prog"], "--from", str(s["from"]), "--to", str(s["to"])] + (["--c09"] if c09 else [])
+            args = [binp, "corner-replay", scen, s["out"], s["prog"], "--from", str(s["from"]), "--to", str(s["to"]), "--mod", str(nproc), "--rem", str(s["k"])] + (["--c09"] if c09 else [])
         s["proc"] = subprocess.Popen(args, stdout=subprocess.PIPE, stderr=subprocess.STDOUT, text=True, preexec_fn=limits)
         s["last"] = time.time()
         s["cur"] = s["from"]
+        s["size"] = 0
 
     for s in state:
         if s["from"] < s["to"]:
@@ -49,14 +50,21 @@ def run_slices(binp, scen, n, c09, nproc, label, random_family=False):
         for s in list(active):
             rc = s["proc"].poll()
             cur = s["cur"]
+            size = s["size"]
             try:
-                lines = open(s["prog"]).read().split()
-                if lines and lines[-1] != "done":
-                    cur = int(lines[-1])
+                size = os.path.getsize(s["prog"])
+                if size != s["size"]:
+                    with open(s["prog"], "rb") as pf:
+                        pf.seek(max(0, size - 64))
+                        lines = pf.read().decode(errors="replace").split()
+                    if lines and lines[-1] != "done":
+                        cur = int(lines[-1])
             except (OSError, ValueError):
                 pass
-            if cur != s["cur"]:
+            # alive = the progress file grew: a new map, or the heartbeat of a finished call within the current map
+            if cur != s["cur"] or size != s["size"]:
                 s["cur"] = cur
+                s["size"] = size
                 s["last"] = time.time()
             if rc is not None:
                 if rc == 0 and os.path.exists(s["out"]):
